@@ -1,14 +1,134 @@
-"""C01 — string and key commands behave as a sequential Redis keyspace."""
-from . import gen, memlib
+"""C01 — string and key commands behave as a sequential Redis keyspace.
+
+Proof half: coq/Properties/C01.v (refinement of the reference clauses of coq/Mem/StringsSpec.v by
+the model's exec, for all programs / byte strings / well-formed databases).
+Tie: the programs below run on the real server.Manager (virtual clock) and on the extracted
+model; every reply and every keyspace dump is compared (checks/memlib.py)."""
+import json
+import re
+
+from . import gen_str, lib, memlib
 
 PID = "C01"
+_counts = {}
 
 
 def make_cases(tier, seed):
-    n = 400 if tier == "quick" else 6000
-    return gen.gen_c01(seed, n)
+    quick = tier == "quick"
+    streams = [
+        ("set_options", gen_str.set_option_cases()),
+        ("indexes", gen_str.index_cases()),
+        ("malformed", gen_str.malformed_cases(seed)),
+        ("random", gen_str.random_programs(seed, 1500 if quick else 25000)),
+        # bounded-exhaustive: ALL programs of length 2 and 3 over 2 keys x the command instances
+        ("exhaustive_len2", list(gen_str.exhaustive_cases(2))),
+        ("exhaustive_len3", list(gen_str.exhaustive_cases(3, sample=None, seed=seed))),
+    ]
+    if not quick:
+        streams.append(("exhaustive_len3_large_sample",
+                        list(gen_str.exhaustive_cases(3, sample=400000, seed=seed, large=True))))
+        streams.append(("exhaustive_len4_sample", list(gen_str.exhaustive_cases(4, sample=300000, seed=seed))))
+    cases = []
+    for name, cs in streams:
+        _counts[name] = len(cs)
+        cases += cs
+    _counts["command_instances"] = len(gen_str.command_instances())
+    return cases
+
+
+def post(ctx, d):
+    """Count the INCRBYFLOAT steps the model could only accept (outside the exact decimal domain)."""
+    cov = {"streams": dict(_counts), "other_types_prepopulated": gen_str.available_other_types()}
+    ver = d / "main.verdict"
+    if ver.exists():
+        m = re.search(r"SUMMARY .*ood=(\d+)", ver.read_text())
+        if m:
+            cov["incrbyfloat_out_of_domain_steps_skipped"] = int(m.group(1))
+    return None, cov
+
+
+def tcp_run(d, text, tag="tcp"):
+    """One program file through server.Start over TCP (real clock build) and the model."""
+    prog, out, ver = d / (tag + ".prog"), d / (tag + ".trace"), d / (tag + ".verdict")
+    prog.write_text(text)
+    for f in (out, ver):
+        if f.exists():
+            f.unlink()
+    rc, log = lib.sh("%s tcprun %s %s %s" % (lib.BUILD / "harness", prog, out, d), cwd=d, timeout=300)
+    if rc != 0 or not out.exists():
+        return None, "", "tcp harness rc=%s log=%s" % (rc, log[-1500:])
+    rc, log = lib.sh("%s mem %s %s" % (lib.BUILD / "modelrun", out, ver), cwd=d, timeout=300)
+    if rc != 0 or not ver.exists():
+        return None, out.read_text(), "modelrun rc=%s log=%s" % (rc, log[-1500:])
+    return ver.read_text().splitlines(), out.read_text(), None
+
+
+def tcp_sample(ctx, nfiles):
+    """Random expiry-free programs through the real RESP parser, connection loop and reply
+    encoder (server.Start on a free port); replies compared with the model."""
+    ok, log = lib.ensure_harness()
+    d = lib.scratch("c01tcp-")
+    if not ok:
+        lib.violation(PID, dict(kind="tie-broken", what="real-clock harness build failed: " + log[-2000:]), found_input=False)
+        return 1, {}
+    steps = progs = 0
+    for i in range(nfiles):
+        cases = gen_str.tcp_programs(ctx.seed * 1000 + i)
+        text = "".join(c.text() for c in cases)
+        v, trace, err = tcp_run(d, text)
+        steps += sum(1 for l in trace.splitlines() if l.startswith("S "))
+        progs += len(cases)
+        mm = memlib.mismatching(v)
+        if err or mm:
+            allc = memlib.split_cases(text)
+            name = sorted(mm)[0] if mm else None
+            cl = [c for c in allc if name and memlib.case_name(c) == name]
+            case = cl[0] if cl else (allc[0] if allc else [])
+            lib.violation(PID, dict(kind="tcp-vs-model" if mm else "tcp-harness-failed", via="tcp", detail=mm.get(name) if mm else err,
+                                    case_lines=case, readable=memlib.decode_case(case),
+                                    note="replies read from a TCP connection to server.Start disagree with the model on this program"))
+            return 1, dict(tcp_steps=steps, tcp_programs=progs)
+    return 0, dict(tcp_steps=steps, tcp_programs=progs,
+                   tcp_correspondence="server.Start on a free port (real RESP parser, connection loop, reply encoder) vs extracted srv_exec: every reply compared; expiry-free programs, one connection and one SELECTed database per program")
 
 
 def run(ctx):
-    return memlib.run_family(ctx, PID, make_cases,
-                             rule="seeded random programs (1-30 commands) of string/key commands over 2-6 keys (case variants, empty, binary), all SET option shapes, boundary indexes, numeric extremes, a malformed-arity stream, virtual-clock sleeps")
+    if ctx.replay:
+        r = json.load(open(ctx.replay))
+        if r.get("via") == "tcp":
+            ok, log = lib.ensure_harness()
+            memlib.build(ctx)
+            d = lib.scratch("c01tcp-")
+            v, trace, err = tcp_run(d, "\n".join(r.get("case_lines", [])) + "\n")
+            print(trace)
+            print("\n".join(v or []), err or "")
+            return 1 if (err or memlib.mismatching(v)) else 0
+    rc = run_main(ctx)
+    if ctx.replay:
+        return rc
+    rc2, cov = tcp_sample(ctx, 2 if ctx.tier == "quick" else 40)
+    evf = lib.VERIF / "evidence" / (PID + ".json")
+    if evf.exists():
+        ev = json.load(open(evf))
+        ev["coverage"].update(cov)
+        ev["coverage"]["evaluations"] = ev["coverage"].get("evaluations", 0) + cov.get("tcp_steps", 0)
+        ev["violations"] = int(ev.get("violations", 0)) + (1 if rc2 else 0)
+        ev["wall_s"] = round(ctx.wall(), 2)
+        evf.write_text(json.dumps(ev, indent=1))
+    return 1 if (rc or rc2) else 0
+
+
+def run_main(ctx):
+    return memlib.run_family(
+        ctx, PID, make_cases,
+        rule=("every SET option subset x argument shape x letter case on a missing key / a string with a deadline / a key of "
+              "another type; GETRANGE/SETRANGE over all index pairs from {min64, -len-1..len+1, max64} for len 0..3 and offsets "
+              "around the 512 MB limit; every command name with 0..5 arguments and unknown names; seeded random programs "
+              "(1-40 commands, pool of 12 keys incl. case variants / empty / CR LF / NUL 0xff, keys pre-populated with the other "
+              "types the model knows, numerals at the int64 edges, INCRBYFLOAT inside and outside the exact decimal domain, "
+              "virtual-clock sleeps); bounded-exhaustive: ALL programs of length 2 and 3 over keys k/K x the command instances built "
+              "from a 6-value argument alphabet (thorough adds seeded samples of length 4 and of a larger instance set)"),
+        extra_tb=["INCRBYFLOAT: exact only on dyadic decimals with <= 15 significant digits (argument in coq/Mem/Strings.v); "
+                  "outside that domain the model accepts the observed reply (counted as incrbyfloat_out_of_domain_steps_skipped)",
+                  "coq/Mem/StringsSpec.v: the reference clauses, transcribed from the Redis command reference from memory"],
+        post=post)
